@@ -79,7 +79,7 @@ def cases(draw):
     if target == "path":
         # the writer opens the file with the declared encoding: a row it cannot encode is a row it cannot write
         fmt["encoding"] = draw(st.sampled_from(["utf-8", "utf-8", "ascii", "cp1252", "latin-1", "utf-16", "cp850"]))
-    return {"spec": spec, "rows": rows, "target": target}
+    return {"spec": spec, "rows": rows, "target": target, "rows_as": draw(st.sampled_from(["list", "list", "tuple"]))}
 
 
 def _render(spec, accepted):
@@ -201,6 +201,8 @@ def _check_with_target(sub, case, cid, target):
         # a caller that writes the same row again usually hands over the same list object: keep one object per
         # distinct row so that a writer which modifies its argument is noticed
         handed = row_objects.setdefault(tuple(row), list(row))
+        if case.get("rows_as") == "tuple":
+            handed = tuple(row)  # as rows come from a database cursor: a sequence all the same
         try:
             writer.write_row(handed)
             outcome = None
@@ -327,7 +329,8 @@ def _check_with_target(sub, case, cid, target):
             seen_reject = True
         elif v == "accept" and seen_reject:
             nontrivial = True
-    classes = ["format:" + label, "header:%d" % header, "target:" + case.get("target", "stream")] + [
+    classes = ["format:" + label, "header:%d" % header, "target:" + case.get("target", "stream"),
+               "rows-as:" + case.get("rows_as", "list")] + [
         "step:" + v for v in verdicts]
     if fixed:
         classes.append("line-delimiter:%s" % fmt.get("line_delimiter"))
